@@ -116,7 +116,8 @@ class TocCache():
 
     def _decoder(self, obj):
         """ Decode a toc element leaf-node """
-        if '__class__' in obj:
+        # A group or variable may itself be called __class__, only a leaf-node has a class name here
+        if isinstance(obj.get('__class__'), str):
             elem = eval(obj['__class__'])()
             elem.ident = obj['ident']
             elem.group = str(obj['group'])
